@@ -280,6 +280,12 @@ struct Pool {
                 va::LibScope ls;
                 volatile unsigned sink = static_cast<unsigned>(a.compare(b)) + (a == b) + (a < b) + static_cast<unsigned>(a.empty()) + static_cast<unsigned>(a.front()) + static_cast<unsigned>(a.back());
                 (void)sink;
+                {
+                    // equality and order of two live objects (whatever their histories) are those of their values
+                    va::HarnessScope hs;
+                    const bool same = slots[i].shadow == slots[j].shadow;
+                    if ((a == b) != same || (a != b) == same || (a.compare(b) == 0) != same) fail("equality-differs-from-model", i, "operator== / != / compare()==0 of two live objects");
+                }
                 BS s = a.to_std_string();
                 { va::HarnessScope hs; if (s.size() != a.size()) fail("to_std_string-size", i, "to_std_string().size() != size()"); }
                 {
@@ -317,7 +323,7 @@ static void histories()
     const char *tn = TN<T>::n();
     std::string pn = std::string("histories_") + tn;
     const size_t steps = vrt::thorough() ? 150 : 80;
-    vrt::phase(pn.c_str(), vrt::tier_count(5000, 200000), [&](uint64_t idx, Rng &r) {
+    vrt::phase(pn.c_str(), vrt::tier_count(30000, 300000), [&](uint64_t idx, Rng &r) {
         {
             Pool<T> pool;
             for (size_t s = 0; s < steps; ++s) pool.step(r);
